@@ -41,3 +41,7 @@ def run(ctx):
     ctx.ev.assume("clock never steps back; single writer process; snapshots are copies of the database file taken "
                   "after a clean Close (the engine commits and the binlog is flushed), reopening is a clean start")
     ctx.ev.assume("PutBootstrap is issued through the engine with applyPutBootstrap (DBV2 has no public method for it)")
+
+
+def replay(ctx, path):
+    M.replay_witness(ctx, "C16", path)
